@@ -10,6 +10,7 @@ from hypothesis import strategies as st
 from vlib.harness import SubCheck, must, must_raise, require
 
 PROPERTY_ID = "C17"
+TECHNIQUE = 'property-based testing (Hypothesis) against dict-accumulated marginals and kernel/entropy reference formulas; invalid-input refusal checks'
 RULE = (
     "Dictionaries of 1..12 equal-length outcome keys (bit tuples, bit strings, comma strings, tuples of "
     "small and multi-digit ints), finite weights in [0, 1e6] not all zero; invalid inputs (empty, "
